@@ -6,7 +6,8 @@ Driver for C13. Line protocol (a `#` line starts a new case = new connection, em
   cfg <name>=<p|s>,...                      register the databases (p = key/record store, s = sinkhole)
   seed <keyhex> <fmt> <datahex> <flags>     privileged write; flags: `-` or letters s c x n
   seedstruct <keyhex> <jsonhex>             privileged write of a native struct record (JSON view)
-  m <msghex> [q=…] [o=0|1] [i=0|1]          one message through `handle`; prints the canonical reply batch
+  m <msghex> [q=…] [o=0|1] [i=0|1] [c=n]    one message through `handle`; prints the canonical reply batch
+  late                                      all replies sent so far, read again: always `ok` (replies are values)
   end                                       connection teardown
   conc <json>                               concurrent scenario marker (the recorded trace follows)
   t req <msghex> | t rep <replyhex> | t quiet | t final     trace acceptor
@@ -118,6 +119,9 @@ def parseAnnot (an : Annot) : List String → Option Annot
     else if w = "o=1" then parseAnnot { an with obj := true } ws
     else if w = "i=0" then parseAnnot { an with ins := false } ws
     else if w = "i=1" then parseAnnot { an with ins := true } ws
+    -- c=<n>: spare capacity of the buffer the message arrives in. The model's messages and replies are values
+    -- (`Bytes`); there is no buffer a reply could share with the request or with another reply: ignored.
+    else if w.startsWith "c=" then parseAnnot an ws
     else none
 
 def rtypeOfBytes (b : Bytes) : Option RType :=
@@ -172,6 +176,11 @@ def stepLine (s : DSt) (line : String) : DSt × String :=
   | ["end"] =>
     let (st', out) := teardown s.st
     ({ s with st := st' }, batchStr out)
+  -- `late`: every reply sent so far is read again. `handle` is a pure function returning `List Reply`: a reply
+  -- handed over is the same value for ever, so the answer of the model is constant.
+  | ["late"] => (s, "ok")
+  -- a trace in which a reply reads differently later has no explanation
+  | ["t", "late", _, _] => ({ s with acc := [] }, "reject")
   | "conc" :: _ => ({ s with acc := accInit }, "ok")
   | ["t", "req", h] =>
     match parseHex h with
